@@ -457,6 +457,9 @@ package grpcgcp
 //@   ensures [C12.create-ok] old(cs.ClientStream == nil) && $strErr == nil ==> cs.ClientStream == $strResult && cs.ClientStream != nil
 //@   ensures [C12.create-fail] old(cs.ClientStream == nil) && $strErr != nil ==> $ret0 == $strErr && cs.initStreamErr == $strErr && cs.ClientStream == nil
 //@   ensures [C12.send-delegates] cs.ClientStream != nil ==> $sendLast[cs.ClientStream] == m && $sendCalls[cs.ClientStream] == old($sendCalls)[cs.ClientStream] + 1
+// the stream is created at most once: the streamer is only ever called under the stream's lock, by a holder that sees
+// no stream yet (and publishes the result before releasing, create-ok) - a second creation after a success is impossible
+//@   callsite streamer#1 asserts [C12.create-locked] held(cs.Mutex) && cs.ClientStream == nil
 //@ func (cs *gcpClientStream) signalReady
 //@   inline
 //@ func (cs *gcpClientStream) RecvMsg
